@@ -19,6 +19,10 @@ C = {
    text="The four Config.Validate methods and their default constants are translated from the Go source to Lean on every run; theorems re-proved against them: every governed timeout/interval/limit is positive after validation, 0 < shard_count <= MaxInt/2 (so doubling cannot overflow), valid configurations are preserved unchanged, validation is idempotent — for all field values. Unknown driver names, out-of-range hook options and bad Redis URLs are refused (model + theorems). Tied by differential runs of the real Validate on boundary products, registry lookups, Redis URLs, stores built from out-of-range configs and then used, plus a source fact: no constructor touches the unvalidated parameter after Validate().",
    note="trusted: Lean kernel + 3 standard axioms; translator harness/tr (checks that each if reads only the receiver and each field is defaulted once); fact extractor; yaml decoding, url.Parse and strconv.Atoi are modelled/passed in, not verified; request-level caps (numwant, scrape size) are proved under C02/C06",
    tech="Lean 4 proof over a model regenerated from source by a translator + differential correspondence + go/ast source fact"),
+ "C14": dict(
+   text="Lean theorems for all peer IDs, infohashes and list configurations: client ID extraction (bytes 1-6 after '-', else 0-5); whitelist => accept iff listed; blacklist => accept iff not listed; no list => accept; scrapes never blocked; both lists / wrong-length client entries / non-40-hex torrent entries are refused at construction. Tied to the two real hooks by differential runs on generated configurations (malformed entries, duplicates, both lists) and near-miss IDs.",
+   note="trusted: Lean kernel + 3 standard axioms; harness; yaml decoding of options and encoding/hex are modelled (hexDecode is compared through the stream), not verified",
+   tech="Lean 4 proof (decision logic stated outright) + differential correspondence check against the Go hooks"),
 }
 
 def main():
